@@ -243,6 +243,7 @@ func streamRepeat() {
 		if c.readsInput && len(c.stdin) == 0 {
 			// empty input: a pipe that is closed at once, and stdin connected to /dev/null (cron, CI, exec without stdin)
 			cmd := exec.Command(crdBin, c.args...)
+			cmd.Dir = workDir()
 			cmd.Stdin = nil
 			var so, se bytes.Buffer
 			cmd.Stdout, cmd.Stderr = &so, &se
